@@ -114,9 +114,14 @@ def generate(seed, stratum, tier):
     sc['queue_size'] = rng.choice([2, 3, 4])
     return sc
   kw = {'fx_rate': rng.choice([0.0, 0.25, 0.5]), 'fx_ops': ('defer', 'recall', 'post_fifo'), 'nstates': rng.randrange(2, 8)}
-  return cc.gen_chart_scenario(rng, combos=[('queued', 'closure'), ('queued', 'closure-spied'), ('queued', 'template')],
-                               spec_kw=kw, ops=('defer', 'recall', 'post_fifo', 'post_lifo', 'rtc', 'circuit'),
-                               weights=(4, 4, 2, 1, 4, 1), nops=(5, 40))
+  sc = cc.gen_chart_scenario(rng, combos=[('queued', 'closure'), ('queued', 'closure-spied'), ('queued', 'template')],
+                             spec_kw=kw, ops=('defer', 'recall', 'post_fifo', 'post_lifo', 'rtc', 'circuit'),
+                             weights=(4, 4, 2, 1, 4, 1), nops=(5, 40))
+  if rng.random() < 0.25:
+    # the chart is started again somewhere in the history: what is deferred stays deferred
+    names = [s['name'] for s in sc['spec']['states']]
+    sc['ops'].insert(rng.randrange(1, len(sc['ops']) + 1), ['restart', rng.choice(names)])
+  return sc
 
 
 def shrink_candidates(sc):
